@@ -14,7 +14,11 @@
 (*          value "a" / "b" is the xpath; a failure or an empty value of   *)
 (*          that computation is treated as "no match" (parse.go:111-117)   *)
 (*   xp     0 (no xpath) or an index into XP (relative paths)              *)
-(*   ty     "none" | "int"      (type)                                     *)
+(*   ty     "none" | "int" | "float" | "boolean" | "string"   (type)       *)
+(*   kind "jsconst": a value computed by a script (custom_func javascript    *)
+(*          without arguments); lit names it: "int:7" "float:1.5" "bool:true" *)
+(*          "str:1" "str:1.5" "str:x" "str:true" - the typed sources of the    *)
+(*          conversion matrix of value.go:31-82 (Cast below)                  *)
 (*   notrim, keep               (no_trim, keep_empty_or_null)              *)
 (*   lit    the literal of a const                                         *)
 (* The key of an object child is "f<position among its siblings>", the     *)
@@ -50,7 +54,8 @@ UnderArray(T, t) == T.par[t] # 0 /\ T.kind[T.par[t]] = "array"
 \* --- texts are sequences of one-character strings over {"1", "x", "y", " "} so that trimming,
 \* concatenation and the int cast are computable by TLC.  Chars maps the literals of the model.
 Chars(s) == CASE s = "" -> <<>> [] s = "1" -> <<"1">> [] s = "2" -> <<"2">> [] s = "x" -> <<"x">> [] s = " y " -> <<" ", "y", " ">>
-            [] s = "a" -> <<"a">> [] s = "b" -> <<"b">>
+            [] s = "a" -> <<"a">> [] s = "b" -> <<"b">> [] s = "7" -> <<"7">> [] s = "1.5" -> <<"1", ".", "5">>
+            [] s = "true" -> <<"t", "r", "u", "e">>
 RECURSIVE TrimL(_), TrimR(_)
 TrimL(s) == IF s # <<>> /\ s[1] = " " THEN TrimL(Tail(s)) ELSE s
 TrimR(s) == IF s # <<>> /\ s[Len(s)] = " " THEN TrimR(SubSeq(s, 1, Len(s) - 1)) ELSE s
@@ -71,7 +76,31 @@ NormStr(T, t, s0) ==
   LET s == IF T.notrim[t] THEN s0 ELSE Trim(s0)
   IN IF T.ty[t] = "int"
        THEN IF IsInt(s) THEN <<"i">> \o s ELSE FailV           \* conversion error fails the record
+     ELSE IF T.ty[t] = "float"                                  \* (the model's texts have no fraction: a float is an integer text)
+       THEN IF IsInt(s) THEN <<"i">> \o s ELSE FailV
+     ELSE IF T.ty[t] = "boolean"                                \* strconv.ParseBool: of the model's texts only "1" is a boolean
+       THEN IF s = <<"1">> THEN <<"b", "true">> ELSE FailV
        ELSE IF s = <<>> THEN (IF T.keep[t] THEN <<"s">> ELSE NilV) ELSE <<"s">> \o s
+
+\* --- typed sources (results of custom functions): the conversion matrix of resultTypeConversion
+JsKind(lit) == CASE lit \in {"int:7"} -> "int" [] lit \in {"float:1.5"} -> "float" [] lit \in {"bool:true"} -> "bool" [] OTHER -> "str"
+JsText(lit) == CASE lit = "int:7" -> "7" [] lit = "float:1.5" -> "1.5" [] lit = "bool:true" -> "true" [] lit = "str:1" -> "1"
+                 [] lit = "str:1.5" -> "1.5" [] lit = "str:x" -> "x" [] lit = "str:true" -> "true"
+Num(txt) == <<"i">> \o Chars(txt)
+Cast(k, txt, ty) ==
+  CASE ty = "none"    -> (CASE k \in {"int", "float"} -> Num(txt) [] k = "bool" -> <<"b", txt>> [] OTHER -> <<"s">> \o Chars(txt))
+    [] ty = "string"  -> <<"s">> \o Chars(txt)                                          \* every kind prints as its text
+    [] ty = "int"     -> (CASE k = "int" -> Num(txt)
+                            [] k = "float" -> Num(IF txt = "1.5" THEN "1" ELSE txt)       \* truncation toward zero
+                            [] k = "str" /\ txt \in {"1", "7"} -> Num(txt)
+                            [] OTHER -> FailV)
+    [] ty = "float"   -> (CASE k \in {"int", "float"} -> Num(txt)
+                            [] k = "str" /\ txt \in {"1", "7", "1.5"} -> Num(txt)
+                            [] OTHER -> FailV)
+    [] ty = "boolean" -> (CASE k = "bool" -> <<"b", txt>>
+                            [] k = "str" /\ txt \in {"1", "true"} -> <<"b", "true">>
+                            [] OTHER -> FailV)
+JsConst(T, t) == Cast(JsKind(T.lit[t]), JsText(T.lit[t]), T.ty[t])
 
 \* a composite (object/array) result: empty => omitted unless kept; a type on a composite cannot convert
 NormComposite(T, t, toks, isEmpty, open, close) ==
@@ -104,6 +133,7 @@ RefAnchor(D, T, t, n) ==
 RefEval(D, T, t, n0) ==
   LET a == RefAnchor(D, T, t, n0) IN
   IF T.kind[t] = "const" THEN NormStr(T, t, Chars(T.lit[t]))
+  ELSE IF T.kind[t] = "jsconst" THEN JsConst(T, t)
   ELSE IF T.kind[t] = "dynfield" THEN
     IF UnderArray(T, t) THEN NormStr(T, t, StrSeq(D, n0))                 \* the array already selected the node
     ELSE LET xpi == DynXP(RefEval(D, T, TKids(T, t)[1], n0))
@@ -210,6 +240,7 @@ ImplEval(D, T, t, n0, cache, KeyHasAnchor, SortByFqdn) ==
                 IN IF m = {} THEN <<"none", 0>> ELSE IF Cardinality(m) > 1 THEN <<"many", 0>> ELSE <<"one", CHOOSE x \in m : TRUE>>
   IN
   IF T.kind[t] = "const" THEN save([v |-> NormStr(T, t, Chars(T.lit[t])), c |-> cache])
+  ELSE IF T.kind[t] = "jsconst" THEN save([v |-> JsConst(T, t), c |-> cache])
   ELSE IF T.kind[t] = "dynfield" THEN
     IF UnderArray(T, t) THEN save([v |-> NormStr(T, t, StrSeq(D, n0)), c |-> cache])
     ELSE LET dr == ImplEval(D, T, TKids(T, t)[1], n0, cache, KeyHasAnchor, SortByFqdn)       \* computeXPathDynamic -> ParseNode
